@@ -12,6 +12,7 @@ import (
 	"github.com/bluenviron/gomavlib/v3/pkg/dialects/common"
 	"github.com/bluenviron/gomavlib/v3/pkg/dialects/minimal"
 	"github.com/bluenviron/gomavlib/v3/pkg/frame"
+	"github.com/bluenviron/gomavlib/v3/pkg/message"
 	"pgregory.net/rapid"
 
 	"verifharness/evid"
@@ -82,6 +83,15 @@ func TestC15Race(t *testing.T) {
 						}
 					case *gomavlib.EventStreamRequested:
 						atomic.AddInt32(&lookedAgain, int32(o.SystemID&1)+1)
+					case *gomavlib.EventFrame:
+						// a frame that stayed raw (its id is not in the dialect): its payload belongs to the application
+						if raw, ok := o.Message().(*message.MessageRaw); ok {
+							sum := 0
+							for _, b := range raw.Payload {
+								sum += int(b)
+							}
+							atomic.AddInt32(&lookedAgain, int32(sum&1)+1)
+						}
 					}
 				}
 				kept[nkept%len(kept)] = ev
@@ -142,6 +152,7 @@ func TestC15Race(t *testing.T) {
 					f.Checksum = f.ChecksumFor(hbLay.CRCExtra)
 					p.Feed(f.Bytes())
 					p.Feed(tagged(byte(i+1), k, "debug", true, nil, 0).Bytes())
+					p.Feed(tagged(byte(i+1), k, "raw", true, nil, 0).Bytes()) // unknown to the dialect: delivered and forwarded raw
 					if rejectedInput {
 						bad := tagged(byte(i+1), k, "debug", true, nil, 0)
 						bad.Checksum ^= 0x0101
@@ -205,7 +216,11 @@ func TestC15Race(t *testing.T) {
 						target = chans[(k+g)%len(chans)]
 					}
 					chMu.Unlock()
-					m := &common.MessageDebug{TimeBootMs: uint32(k), Ind: byte(g)}
+					var m message.Message = &common.MessageDebug{TimeBootMs: uint32(k), Ind: byte(g)}
+					if (k+g)%5 == 0 {
+						// an already encoded message whose payload ends in zero bytes, shared by all channels it goes to
+						m = &message.MessageRaw{ID: debugMsgID, Payload: []byte{byte(k), byte(k >> 8), 1, 0, 0, 0, 0, 0, 0}}
+					}
 					var fr frame.Frame = &frame.V2Frame{SequenceNumber: byte(k), SystemID: byte(100 + g), ComponentID: 1, Message: &common.MessageDebug{TimeBootMs: uint32(k), Ind: byte(g)}}
 					switch (k + g) % 6 {
 					case 0:
